@@ -168,26 +168,33 @@ def descriptor_only_loss(ctxd, triples):
 
 
 def rider_shape(events, done_line, r):
-    """DoneErrIff signature: among the events of the script up to the done event of request r, a FAILED export call k that
-    holds no item and no container of r, was started after r was handed in, and is immediately followed by the first part
-    that holds items of r (= the first result of the MergeSplit of the held batch with r); no part with data of r failed."""
-    mine = lambda e: any(it["id"] // 1000 - 100 == r for it in e["items"])
-    consumed = None
+    """DoneErrIff signature: among the events of the script up to the done event of request r there is a FAILED export call k
+    that holds no item and no container of r, was started after r was handed in, holds items of earlier requests only (the
+    held batch), and is emitted next to a part of r (directly before one, or with the timer's flush of r's kept last part
+    in between, or directly after it) = the first result of the MergeSplit of the held batch with r; no part with data of r
+    failed."""
+    req_of = lambda e: {it["id"] // 1000 - 100 for it in e["items"]}
+    mine = lambda e: r in req_of(e) or r in e.get("reqs", [])
+    order = {}                     # request -> line it was handed in
     emits, failed = [], set()
     for i, e in enumerate(events[:done_line]):
-        if e["ev"] == "consume" and e["req"] == r:
-            consumed = i
+        if e["ev"] == "consume":
+            order[e["req"]] = i
         elif e["ev"] == "emit":
             emits.append((i, e))
         elif e["ev"] == "emit_end" and not e["ok"]:
             failed.add(e["k"])
-    if consumed is None or any(e["k"] in failed and (mine(e) or r in e.get("reqs", [])) for _, e in emits):
+    if r not in order or any(e["k"] in failed and mine(e) for _, e in emits):
         return False
-    first = next((n for n, (_, e) in enumerate(emits) if mine(e)), None)
-    if first is None or first == 0:
-        return False
-    i, prev = emits[first - 1]
-    return prev["k"] in failed and i > consumed and not mine(prev) and r not in prev.get("reqs", [])
+    for n, (i, e) in enumerate(emits):
+        if e["k"] not in failed or mine(e) or i < order[r] or not req_of(e):
+            continue
+        if not all(q in order and order[q] < order[r] for q in req_of(e)):
+            continue
+        near = [emits[m][1] for m in (n - 1, n + 1, n + 2) if 0 <= m < len(emits)]
+        if any(r in req_of(x) for x in near):
+            return True
+    return False
 
 
 def one_whole_profile(s, ids):
@@ -285,7 +292,8 @@ def report(c, scripts, results, viol, ctxd, trace_path):
             if seen[key] > 2 or len(c.violations) >= 16:
                 if sig is None or c.match_finding(sig) is None:
                     continue
-            c.violation(what, replay_obj=dict(script=s, clause=cl, line=v["line"]), signature=sig)
+            start = max(i for i in range(v["line"]) if '"ev":"reset"' in lines[i])
+            c.violation(what, replay_obj=dict(script=s, clause=cl, line=v["line"], observed=lines[start:v["line"]][-200:]), signature=sig)
 
 
 def run(c):
